@@ -176,5 +176,53 @@ pub fn preds(ctx: &mut Ctx) {
             });
         }
     }
+    // native f64 at the exact boundaries of every stated precondition: at the exact scalar some boundaries coincide with a
+    // pole of the formula (tan(pi/2)), which would hide an assertion that lets the boundary value through
+    {
+        use std::f64::consts::PI;
+        let pan = |f: &dyn Fn() -> Matrix4<f64>| std::panic::catch_unwind(std::panic::AssertUnwindSafe(f)).is_err();
+        let cases: Vec<(&str, bool)> = vec![
+            ("perspective fovy = 0", pan(&|| perspective(Rad(0.0f64), 1.5, 0.5, 10.0))),
+            ("perspective fovy = pi", pan(&|| perspective(Rad(PI), 1.5, 0.5, 10.0))),
+            ("perspective fovy < 0", pan(&|| perspective(Rad(-0.5f64), 1.5, 0.5, 10.0))),
+            ("perspective aspect = 0", pan(&|| perspective(Rad(1.0f64), 0.0, 0.5, 10.0))),
+            ("perspective near = 0", pan(&|| perspective(Rad(1.0f64), 1.5, 0.0, 10.0))),
+            ("perspective far = 0", pan(&|| perspective(Rad(1.0f64), 1.5, 0.5, 0.0))),
+            ("perspective near = far", pan(&|| perspective(Rad(1.0f64), 1.5, 2.0, 2.0))),
+            ("perspective(Deg) fovy = 180", pan(&|| perspective(Deg(180.0f64), 1.5, 0.5, 10.0))),
+            ("frustum left > right", pan(&|| frustum(1.0f64, -1.0, -1.0, 1.0, 0.5, 10.0))),
+            ("frustum bottom > top", pan(&|| frustum(-1.0f64, 1.0, 1.0, -1.0, 0.5, 10.0))),
+            ("frustum near > far", pan(&|| frustum(-1.0f64, 1.0, -1.0, 1.0, 10.0, 0.5))),
+            ("planar fovy = -pi", pan(&|| planar(Rad(-PI), 1.5, 2.0, 0.5, 10.0))),
+            ("planar fovy = pi", pan(&|| planar(Rad(PI), 1.5, 2.0, 0.5, 10.0))),
+            ("planar fovy < -pi", pan(&|| planar(Rad(-4.0f64), 1.5, 2.0, 0.5, 10.0))),
+            ("planar height < 0", pan(&|| planar(Rad(1.0f64), 1.5, -2.0, 0.5, 10.0))),
+            ("planar aspect = 0", pan(&|| planar(Rad(1.0f64), 0.0, 2.0, 0.5, 10.0))),
+            ("planar near = far", pan(&|| planar(Rad(1.0f64), 1.5, 2.0, 3.0, 3.0))),
+            // focal point -(h/2) cot(fovy/2) = 1 / tan(0.5) ~ 1.83 lies between near = 0.5 and far = 10
+            ("planar focal point between the planes", pan(&|| planar(Rad(-1.0f64), 1.5, 2.0, 0.5, 10.0))),
+        ];
+        let accepted: Vec<(&str, bool)> = vec![
+            ("perspective valid", !pan(&|| perspective(Rad(1.0f64), 1.5, 0.5, 10.0))),
+            ("frustum valid (equal bounds are accepted by the assertions)", !pan(&|| frustum(-1.0f64, 1.0, -1.0, 1.0, 0.5, 10.0))),
+            ("planar valid", !pan(&|| planar(Rad(1.0f64), 1.5, 2.0, 0.5, 10.0))),
+            ("planar valid, negative fovy (focal point 1.83 in front of both planes)", !pan(&|| planar(Rad(-1.0f64), 1.5, 2.0, 3.0, 10.0))),
+        ];
+        // fovy = 0 is a valid planar projection (the orthographic limit, documented): the exact scalar cannot evaluate it
+        // (the focal point is 1/0), natively every entry is finite and the mapping clauses hold exactly on dyadic values
+        let planar0 = std::panic::catch_unwind(|| {
+            let (a, h, n, f) = (1.5f64, 2.0f64, 0.5f64, 4.5f64);
+            let m = planar(Rad(0.0f64), a, h, n, f);
+            let fin = (0..4).all(|c| (0..4).all(|r| m[c][r].is_finite()));
+            let z = |zz: f64| { let v = m * Vector4::new(0.25f64, -0.5, zz, 1.0); (v.z / v.w, v.w) };
+            let corner = m * Vector4::new(a * h / 2.0, h / 2.0, 0.0, 1.0);
+            fin && z(-n) == (-1.0, 1.0) && z(-f) == (1.0, 1.0) && corner.x / corner.w == 1.0 && corner.y / corner.w == 1.0
+        }).unwrap_or(false);
+        let accepted: Vec<(&str, bool)> = accepted.into_iter().chain(std::iter::once(("planar fovy = 0: finite entries, z = -n -> -1, z = -f -> +1, window corner -> (1,1)", planar0))).collect();
+        for (what, ok) in cases.into_iter().chain(accepted.into_iter()) {
+            let w = what.to_string();
+            ctx.pred("rejects(f64 boundary)", &[], &|| (), &move |_| chk(ok, &w));
+        }
+    }
     let _ = r(1, 1);
 }
